@@ -212,6 +212,7 @@ class Counter:
     def __init__(self):
         self.n = 0
         self.k = None
+        self.keep = []      # the user keeps a reference to the objects it created while the census is taken
 
     def wrap(self, f):
         def g(*a, **kw):
@@ -264,20 +265,24 @@ def api_calls():
         return sg(psys, M.RHO_GEN2, c.wrap(lambda rho: M.RHO_PLUS.T.copy()), [P["pt"]], xs, progress_type=pt)
 
     def tempo(c, pt):
-        return oq.Tempo(tdsys(c), bath, prm, M.RHO_GEN2, 0.0).compute(0.35, progress_type=pt)
+        c.keep.append(oq.Tempo(tdsys(c), bath, prm, M.RHO_GEN2, 0.0))
+        return c.keep[-1].compute(0.35, progress_type=pt)
 
     def mean_field_tempo(c, pt):
-        return oq.MeanFieldTempo(mfs(c), [bath], prm, [M.RHO_GEN2], 0.5).compute(0.35, progress_type=pt)
+        c.keep.append(oq.MeanFieldTempo(mfs(c), [bath], prm, [M.RHO_GEN2], 0.5))
+        return c.keep[-1].compute(0.35, progress_type=pt)
 
     def pt_tempo(c, pt):
         corr = oq.CustomSD(c.wrap(lambda w: 0.2 * w * np.exp(-w / 3.0)), cutoff=30.0, cutoff_type="hard", temperature=0.2)
         b = oq.Bath(0.5 * M.SZ, corr)
-        return oq.PtTempo(b, 0.0, 0.35, oq.TempoParameters(dt=0.1, epsrel=1e-4)).get_process_tensor(progress_type=pt)
+        c.keep.append(oq.PtTempo(b, 0.0, 0.35, oq.TempoParameters(dt=0.1, epsrel=1e-4)))
+        return c.keep[-1].get_process_tensor(progress_type=pt)
 
     def gibbs_tempo(c, pt):
         corr = oq.CustomSD(c.wrap(lambda w: 0.2 * w * np.exp(-w / 3.0)), cutoff=30.0, cutoff_type="hard", temperature=0.7)
         b = oq.Bath(np.diag([0.5, -0.5]).astype(complex), corr)
         g = oq.GibbsTempo(oq.System(0.4 * M.SZ), b, oq.GibbsParameters(n_steps=3, epsrel=1e-4))
+        c.keep.append(g)
         return g.compute(progress_type=pt)
 
     def compute_correlations(c, pt):
@@ -292,6 +297,7 @@ def api_calls():
         t = oq.PtTebd(oq.AugmentedMPS([M.RHO_GEN2, M.RHO_PLUS]), chain, [P["pt"], None],
                       oq.PtTebdParameters(dt=0.1, order=2, epsrel=1e-7), dynamics_sites=[0])
         c.n += 1
+        c.keep.append(t)
         return t.compute(3 if c.k is None else 5, progress_type=pt)     # 5 > len(pt): fails midway
 
     def pt_tebd_multithread(c, pt):
@@ -305,6 +311,7 @@ def api_calls():
                       oq.PtTebdParameters(dt=0.1, order=2, epsrel=1e-7), dynamics_sites=[0],
                       backend_config={"parallel": "multithread"})
         c.n += 1
+        c.keep.append(t)
         return t.compute(2 if c.k is None else 5, progress_type=pt)
 
     return {f.__name__: f for f in (compute_dynamics, compute_dynamics_with_field, state_gradient, tempo,
@@ -363,8 +370,9 @@ def fault_case(args):
     sys.stdout = io.StringIO()
     raised = None
     before = set(threading.enumerate())
+    result = None
     try:
-        calls[api](c, ptype)
+        result = calls[api](c, ptype)       # kept alive, like a user who holds on to what the call returned
     except BaseException as ex:  # noqa
         raised = type(ex).__name__
     finally:
